@@ -67,6 +67,22 @@ claim("C14",
       "Not decided yet: the per-pixel statement pixel(x,y) == module((x-pad)/s, (y-pad)/s) for the three renderers (needs the composition of the SetRegion posts through the loops), and the image.Image view.",
       "products and quotients of symbolic integers are uninterpreted in the function VCs; the needed facts are the separately proved lemmas renderFit/scaleFit/divPos/mulSucc/mulMono.")
 
-for p in ["C01","C02","C03","C04","C06","C08","C09","C12","C15","C17","C18"]:
+claim("C12",
+      "For the writer front ends and renderers: OneDimensionalCodeWriter.Encode and QRCodeWriter.Encode are proved panic-free for every content, format, width, height and hint map, "
+      "to return exactly one of (matrix, error), and a matrix at least as large as requested; onedWriter_renderResult, QR renderResult and the Data Matrix converter are proved panic-free with "
+      "the block geometry inside the image (the discarded SetRegion error cannot occur) and the promised output dimensions; onedWriter_checkNumeric and the EAN-13/EAN-8/UPC-E encoders are "
+      "proved panic-free over the compiled pattern tables. Negative MARGIN hints are now refused (two fixes). "
+      "Not decided: the per-symbology encoders other than EAN-13/EAN-8/UPC-E (assumed through the encoder interface contract), Encoder_encode (QR encoder proper: assumed summary, marked trusted), "
+      "the Data Matrix high-level encoder and its termination, Code 128/39/93/ITF/Codabar encoders.",
+      "hint maps are unmodelled (lookups return arbitrary well-typed values: every hint value is covered); strconv/fmt stubs assumed non-panicking; allocation assumed to succeed; "
+      "termination only where decreases clauses are given.")
+claim("C06",
+      "Narrow claim on bit readers and one row-level decoder: BitSource.ReadBits/Available are proved panic-free for every state and argument, to fail exactly when numBits is outside 1..32 or exceeds the "
+      "available bits, to leave the position untouched on failure and to advance it by exactly numBits on success; code39DecodeExtended is proved panic-free for every byte string and to report only "
+      "FormatException (a trailing escape used to panic: fixed); GridSampler_checkAndNudgePoints is proved panic-free with only NotFoundException (C19). "
+      "Not decided: the QR / Data Matrix / Aztec bit-stream parsers and decoders, the 1-D row decoders, the detectors, the binarisers, the multi reader.",
+      "external xerrors/fmt constructors assumed non-panicking; termination only where decreases clauses are given.")
+
+for p in ["C01","C02","C03","C04","C08","C09","C15","C17","C18"]:
     na(p, NOTYET)
 na("C11", "The library has no Aztec writer: 'conforming symbol' would have to be a hand-written restatement of ISO/IEC 24778 (a model, not the code), and the image-to-bits path is a float-geometry detector; no contract on one call of the real code expresses the property. The Aztec decoder's totality is covered under C06.")
